@@ -1,6 +1,7 @@
 (* C05  Timers: never early, deadline order, exactly once per arming, cancel is final. *)
 From CV Require Import Base Consts Token PostAction Env Loop.
-From CVP Require Import Loop_frames Seq_lemmas Env_lemmas.
+From Coq Require Import Permutation.
+From CVP Require Import Loop_frames Seq_lemmas Env_lemmas C05_perm.
 Import ListNotations.
 Open Scope N_scope.
 
@@ -18,6 +19,14 @@ Qed.
 (* timers due in the same dispatch come out in non-decreasing deadline order *)
 Theorem C05_deadline_order : forall fuel l now ex rest, wh_expire fuel l now = (ex, rest) -> dl_sorted ex.
 Proof. exact wh_expire_sorted. Qed.
+(* the expiry loop partitions the wheel: popped ++ remaining is a permutation of what was there - no arming is popped twice, none is
+   lost, none is invented; with pairwise distinct arming counters (which holds except after the stale-batch-event corner F5) each
+   counter is popped at most once and a popped counter is no longer in the wheel *)
+Theorem C05_expire_partitions_wheel : forall fuel l now ex rest, wh_expire fuel l now = (ex, rest) -> Permutation l (ex ++ rest).
+Proof. exact wh_expire_perm. Qed.
+Theorem C05_each_arming_popped_once : forall fuel l now ex rest, wh_expire fuel l now = (ex, rest) -> NoDup (map w_ctr l) ->
+  NoDup (map w_ctr ex) /\ NoDup (map w_ctr rest) /\ forall c, In c (map w_ctr ex) -> ~ In c (map w_ctr rest).
+Proof. exact wh_expire_once. Qed.
 (* a timer only reacts to the event carrying its current registration token *)
 Theorem C05_token_check : forall scr s o ob ev,
   objs s o = Some ob -> src_has_tok (o_src ob) (unpack (ev_key ev)) = false ->
